@@ -449,6 +449,9 @@ pub struct WcnfCase {
     pub hard: Vec<Vec<i32>>,
     pub soft: Vec<(u32, Vec<i32>)>,
     pub seed: u64,
+    /// the generalized totalizer is additionally run with the random seeds seed+1 ..= seed+extra_seeds
+    #[serde(default)]
+    pub extra_seeds: u8,
 }
 
 pub struct WcnfProp;
@@ -480,7 +483,7 @@ impl Property for WcnfProp {
         "C15"
     }
     fn rule(&self) -> String {
-        "random WCNF instances in the `p wcnf n m top` format (1-10 variables, 0-20 hard and 1-20 soft clauses; soft clauses unit / empty / duplicated / equal to a hard clause / decided at the root by hard units; weights 1-5 or large weights up to 2^31-1 whose sum exceeds 2^32; hard part satisfiable in most cases), each run through the real binary with both --upper-bound-encoding values: with satisfiable hard clauses the status must be OPTIMUM FOUND, the last o line and the cost of the v model recomputed from the file must equal the brute-force minimum and the model must satisfy the hard clauses; otherwise UNSATISFIABLE; both encodings agree. evaluations counts solver runs. Non-trivial: >=2 o lines or a soft clause decided at the root; distinct by hash of the instance.".into()
+        "random WCNF instances in the `p wcnf n m top` format (1-10 variables, 0-20 hard and 1-20 soft clauses; soft clauses unit / empty / duplicated / equal to a hard clause / decided at the root by hard units; weights 1-5 or large weights up to 2^31-1 whose sum exceeds 2^32; hard part satisfiable in most cases; 3 in 16 cases from a 'slack' family of 2-4 variables with an empty soft clause, one or two heavy and a few light soft clauses, run with five random seeds), each run through the real binary with both --upper-bound-encoding values: with satisfiable hard clauses the status must be OPTIMUM FOUND, the last o line and the cost of the v model recomputed from the file must equal the brute-force minimum and the model must satisfy the hard clauses; otherwise UNSATISFIABLE; both encodings agree. evaluations counts solver runs. Non-trivial: >=2 o lines or a soft clause decided at the root; distinct by hash of the instance.".into()
     }
     fn assumptions(&self) -> Vec<String> {
         vec!["top weight = sum of soft weights + 1 (< 2^63)".into(), "a process which exceeds 20 s is killed and counted inconclusive".into()]
@@ -504,20 +507,47 @@ impl Property for WcnfProp {
                     0u64..4,
                 )
             })
-            .prop_map(|(num_vars, hard, mut soft, dup, seed)| {
+            .prop_map(|(mut num_vars, mut hard, mut soft, dup, mut seed)| {
+                // slack family (3 in 16 cases): tiny instances in which the first improvement step
+                // fixes the heavy objective literals and the remaining light weights fit into the slack, with
+                // weight already lost at the root (an empty soft clause); five random seeds
+                let slack_family = dup >= 208;
+                let mut extra_seeds = 0;
+                if slack_family {
+                    num_vars = num_vars.min(2 + (dup as usize / 4) % 3);
+                    let fold = |c: &mut Vec<i32>| {
+                        for l in c.iter_mut() {
+                            let v = (l.unsigned_abs() as usize - 1) % num_vars + 1;
+                            *l = if *l > 0 { v as i32 } else { -(v as i32) };
+                        }
+                    };
+                    hard.truncate((dup as usize / 16) % 4);
+                    hard.iter_mut().for_each(fold);
+                    soft.truncate(3 + (dup as usize) % 6);
+                    let heavy = 1 + (dup as usize / 2) % 2;
+                    for (i, s) in soft.iter_mut().enumerate() {
+                        fold(&mut s.1);
+                        let r = s.0 % 64;
+                        s.0 = if i < heavy { 5 + r % 8 } else { 1 + r % 3 };
+                    }
+                    let w0 = 2 + (soft[0].0 + dup as u32) % 5;
+                    soft.push((w0, vec![]));
+                    seed = seed * 16 + (dup as u64 / 4) % 16;
+                    extra_seeds = 4;
+                }
                 // 40% unweighted instances (both encodings apply)
-                if dup % 5 < 3 {
+                if !slack_family && dup % 5 < 3 {
                     let w = if dup % 5 == 2 { soft[0].0 } else { 1 };
                     for s in soft.iter_mut() {
                         s.0 = w;
                     }
                 }
                 // duplicates of soft clauses and of hard clauses among the soft ones
-                if dup % 4 == 0 && !soft.is_empty() {
+                if !slack_family && dup % 4 == 0 && !soft.is_empty() {
                     let c = soft[0].clone();
                     soft.push(c);
                 }
-                if dup % 4 == 1 && !hard.is_empty() {
+                if !slack_family && dup % 4 == 1 && !hard.is_empty() {
                     soft.push((2, hard[0].clone()));
                 }
                 // the parser reads weights (and the top weight) as 32-bit literals and the format asks for
@@ -530,13 +560,13 @@ impl Property for WcnfProp {
                     let i = (0..soft.len()).max_by_key(|i| soft[*i].0).unwrap();
                     soft[i].0 = (soft[i].0 / 2).max(1);
                 }
-                WcnfCase { num_vars, hard, soft, seed }
+                WcnfCase { num_vars, hard, soft, seed, extra_seeds }
             })
             .boxed()
     }
     fn cases(&self, tier: Tier) -> u64 {
         match tier {
-            Tier::Quick => 20_000,
+            Tier::Quick => 40_000,
             Tier::Thorough => 400_000,
         }
     }
@@ -599,18 +629,26 @@ impl Property for WcnfProp {
             out.counters.push(("excluded_by_known_finding_cne".into(), 1));
         }
         let encodings: &[&str] = if cne_ok { &["generalized-totalizer", "cardinality-network"] } else { &["generalized-totalizer"] };
-        for enc in encodings.iter().copied() {
+        let mut runs: Vec<(&str, u64)> = encodings.iter().map(|e| (*e, case.seed)).collect();
+        for k in 1..=case.extra_seeds as u64 {
+            runs.push(("generalized-totalizer", case.seed + k));
+        }
+        if case.extra_seeds > 0 {
+            out.classes.push("slack_family".into());
+        }
+        let mut non_monotone = false;
+        for (enc, run_seed) in runs.iter().copied() {
             let input = scratch_file("wcnf");
             std::fs::write(&input, &text).expect("write wcnf");
-            let args = vec![input.to_string_lossy().to_string(), "--upper-bound-encoding".into(), enc.into(), "--random-seed".into(), case.seed.to_string()];
+            let args = vec![input.to_string_lossy().to_string(), "--upper-bound-encoding".into(), enc.into(), "--random-seed".into(), run_seed.to_string()];
             let o = run_cli(&args, Duration::from_secs(20));
             cleanup(&[&input]);
             if o.timed_out {
                 out.inconclusive = true;
-                out.notes.push(format!("TIMEOUT encoding {enc} seed {}: {}", case.seed, text.replace('\n', "\\n")));
+                out.notes.push(format!("TIMEOUT encoding {enc} seed {}: {}", run_seed, text.replace('\n', "\\n")));
                 continue;
             }
-            let what = format!("encoding {enc}");
+            let what = format!("encoding {enc}, random seed {run_seed}");
             let tag = if enc == "cardinality-network" { "cne" } else { "gte" };
             if o.status != Some(0) {
                 return Err(Failure::new(
@@ -647,6 +685,9 @@ impl Property for WcnfProp {
                     if o_lines.len() >= 2 {
                         improved = true;
                     }
+                    if o_lines.windows(2).any(|w| w[1] > w[0]) {
+                        non_monotone = true;
+                    }
                     optima.push(best);
                 }
                 DimacsVerdict::Unsat => {
@@ -659,7 +700,12 @@ impl Property for WcnfProp {
                 }
             }
         }
-        out.sub_evals = encodings.len() as u64 - 1;
+        out.sub_evals = runs.len() as u64 - 1;
+        if non_monotone {
+            // not a violation (only the last o line is specified), but the situation in which the
+            // incumbent and its value can get out of step
+            out.classes.push("o_lines_not_monotone".into());
+        }
         if cne_ok {
             out.classes.push("cne_run".into());
         }
